@@ -46,10 +46,41 @@ const (
 	c02FrChunk1
 	c02FrChunk3
 	c02FrChunkTrailer
+	// chunked with a trailer section that is not a well-formed "*(field-line CRLF) CRLF":
+	c02FrTrailerNoCRLF    // the empty line that ends the trailer section is missing: whatever follows "0 CRLF" sits in trailer position
+	c02FrTrailerForbidden // terminated, but carries a field that is forbidden in trailers (Content-Length)
+	c02FrTrailerGarbage   // terminated, but one line is not a field line
+	c02FrTrailerCut       // input ends inside the trailer
 	c02NFraming
 )
 
-var c02FrName = [...]string{"content-length", "chunked-1", "chunked-3", "chunked+trailer"}
+var c02FrName = [...]string{"content-length", "chunked-1", "chunked-3", "chunked+trailer",
+	"chunked+trailer-without-final-CRLF", "chunked+forbidden-trailer-field", "chunked+garbage-trailer-line", "chunked+trailer-cut-at-end-of-input"}
+
+// c02TrailerOpen: the trailer section never ends inside message 1, so the message is malformed/incomplete and
+// nothing behind the last chunk is a message: the connection must close, nothing further may be dispatched.
+func c02TrailerOpen(fr int) bool { return fr == c02FrTrailerNoCRLF || fr == c02FrTrailerCut }
+
+// c02TrailerBad: message 1 may legitimately be refused (400/close) or, for the terminated variants, accepted with
+// the offending line ignored; in either case only exact message boundaries may be dispatched afterwards.
+func c02TrailerBad(fr int) bool { return fr >= c02FrTrailerNoCRLF }
+
+// c02TrailerBytes is what follows the last-chunk line "0\r\n".
+func c02TrailerBytes(fr int) string {
+	switch fr {
+	case c02FrChunkTrailer:
+		return "X-T: tv\r\n\r\n"
+	case c02FrTrailerNoCRLF:
+		return ""
+	case c02FrTrailerForbidden:
+		return "Content-Length: 5\r\n\r\n"
+	case c02FrTrailerGarbage:
+		return "garbage-line-without-colon\r\n\r\n"
+	case c02FrTrailerCut:
+		return "X-T: t"
+	}
+	return "\r\n"
+}
 
 const (
 	c02ExNone          = iota
@@ -196,7 +227,7 @@ func c02Head(c c02Case, ct string) string {
 		h += "Content-Length: " + strconv.Itoa(c.Size) + "\r\n"
 	} else {
 		h += "Transfer-Encoding: chunked\r\n"
-		if c.Framing == c02FrChunkTrailer {
+		if c.Framing >= c02FrChunkTrailer {
 			h += "Trailer: X-T\r\n"
 		}
 	}
@@ -225,7 +256,6 @@ func c02ChunkSizes(c c02Case) []int {
 	return []int{n}
 }
 
-const c02TrailerLine = "X-T: tv\r\n"
 
 var c02ScriptPool sync.Pool // *[]byte scratch buffers for the large scripts
 
@@ -249,17 +279,16 @@ func c02Script(c c02Case, buf []byte) (script []byte, headEnd, m1End, framed int
 				off += n
 			}
 			w = append(w, "0\r\n"...)
-			if c.Framing == c02FrChunkTrailer {
-				w = append(w, c02TrailerLine...)
-			}
-			w = append(w, "\r\n"...)
+			w = append(w, c02TrailerBytes(c.Framing)...)
 		}
 	}
 	m1End = len(w)
 	framed = 1
 	if c.Follow == c02FoAfter {
 		w = append(w, c02After...)
-		framed = 2
+		if !c02TrailerOpen(c.Framing) {
+			framed = 2 // otherwise these bytes sit inside message 1's unterminated trailer and are no message
+		}
 	}
 	return w, headEnd, m1End, framed
 }
@@ -275,17 +304,15 @@ func c02ScriptLen(c c02Case) (script, headEnd, m1End, framed int) {
 			for _, n := range c02ChunkSizes(c) {
 				m1End += len(strconv.FormatInt(int64(n), 16)) + 2 + n + 2
 			}
-			m1End += 3
-			if c.Framing == c02FrChunkTrailer {
-				m1End += len(c02TrailerLine)
-			}
-			m1End += 2
+			m1End += 3 + len(c02TrailerBytes(c.Framing))
 		}
 	}
 	script, framed = m1End, 1
 	if c.Follow == c02FoAfter {
 		script += len(c02After)
-		framed = 2
+		if !c02TrailerOpen(c.Framing) {
+			framed = 2
+		}
 	}
 	return
 }
@@ -326,6 +353,7 @@ type c02Obs struct {
 	AgainN     int
 	AgainErr   string
 	StreamLeft bool
+	StreamGone bool // the program made the server release the body stream (PostBody, MultipartForm on error ...)
 }
 
 type c02NopLogger struct{}
@@ -432,6 +460,7 @@ func c02Run(c c02Case) (o c02Obs, framed int) {
 		o.Calls = append(o.Calls, call)
 		if call.Method == "POST" && call.URI == "/first" && idx == 0 {
 			c02RunProgram(c, ctx, &o)
+			o.StreamGone = c.Stream && ctx.Request.bodyStream == nil
 			if rs, ok := ctx.Request.bodyStream.(*requestStream); ok && rs != nil {
 				// anti-vacuity only: did the program leave part of the framed body on the connection?
 				cl := rs.header.ContentLength()
@@ -488,6 +517,12 @@ func c02Cause(c c02Case, o *c02Obs) string {
 		return "continuehandler-reject"
 	case c02Rejected(c.Expect):
 		return "expecthandler-reject"
+	case c02TrailerBad(c.Framing) && o.StreamGone:
+		return "malformed-trailer-stream-released-by-handler" // e.g. PostBody(): the read error is swallowed and the stream released
+	case c02TrailerOpen(c.Framing) && c.Follow != c02FoAfter:
+		return "trailer-cut-by-end-of-input"
+	case c02TrailerBad(c.Framing):
+		return "malformed-trailer"
 	case c.Stream && c.Prog == c02ProgReadEOFAgain && c.Framing != c02FrCL && len(o.Calls) > 0 && !o.StreamNil:
 		return "stream-read-after-eof"
 	case c.Kind == c02KindMultipart && c.Framing == c02FrCL:
@@ -575,7 +610,7 @@ func c02Judge(r *vrt.R, c c02Case, o *c02Obs, framed int) {
 	// 1b. message 1 is well-formed; unless its expectation was rejected or (buffered mode) its body exceeds
 	// MaxRequestBodySize it reaches the handler. Not reaching it means the server framed it differently from the
 	// script, e.g. by taking bytes behind its body as body.
-	if next == 0 && !c02Rejected(c.Expect) {
+	if next == 0 && !c02Rejected(c.Expect) && !c02TrailerBad(c.Framing) {
 		limit := c.MaxBody
 		if limit == 0 {
 			limit = DefaultMaxRequestBodySize
@@ -639,6 +674,12 @@ func c02Valid(c c02Case) bool {
 	}
 	if c02Withheld(c.Expect) && c.Follow == c02FoEmbedded {
 		return false // no body sent, nothing to embed into
+	}
+	if c02TrailerBad(c.Framing) && (c02Withheld(c.Expect) || c.Size > 1<<20) {
+		return false // no body sent: same script as the well-formed trailer; the 4 MiB bodies only with well-formed framing
+	}
+	if c.Framing == c02FrTrailerCut && c.Follow == c02FoAfter {
+		return false // "cut at end of input" has nothing behind it
 	}
 	return true
 }
@@ -725,13 +766,14 @@ func TestVerif_C02(t *testing.T) {
 		return
 	}
 	r.Rule("full product of handler program over the body {ignore, Read 0/1/half/all-but-1, read to EOF, read to EOF + one more Read, PostBody, MultipartForm} x StreamRequestBody x " +
-		"(MaxRequestBodySize L in {16 KiB, default 4 MiB}) x body size {0,1,8191,8192,8193,L-1,L,L+1} x framing {Content-Length, chunked 1/3 chunks, chunked+trailer} x " +
+		"(MaxRequestBodySize L in {16 KiB, default 4 MiB}) x body size {0,1,8191,8192,8193,L-1,L,L+1} x framing {Content-Length, chunked 1/3 chunks, chunked+trailer, chunked with a malformed trailer section: no final CRLF (the follow-up then sits in trailer position), forbidden field (Content-Length), garbage line, cut at end of input; malformed trailers with bodies <= 16 KiB+1} x " +
 		"Expect handling {none, accepted by default / ContinueHandler=true / ExpectHandler=100, ContinueHandler=false, ExpectHandler=417, ExpectHandler=403, the rejections with the body withheld or sent anyway} x " +
 		"follow-up {GET /after behind the body, GET /embedded inside the body (octet body: at offset 0 and in every 256-byte block; multipart body: in the epilogue behind the closing delimiter), nothing} x " +
 		"body kind {octet-stream, multipart/form-data (sizes >= 8191)} x delivery {head|body|follow-up in separate reads, all at once (4 MiB bodies: thorough tier only); thorough: 1-byte dribble for scripts <= 20 KiB and a single split at each interesting offset}. " +
 		"Oracle (message boundaries known by construction): handler invocations are exactly the script's messages in order (message 1 may be skipped only after a rejected expectation); " +
 		"final responses (parsed with net/http.ReadResponse, 1xx skipped) never outnumber framed requests; the embedded canary never reaches the handler nor gets a response; " +
 		"the follow-up is dispatched to the handler, or the server closed the connection without reading further. " +
+		"A message with a malformed trailer may be refused or (terminated variants) accepted; with an unterminated trailer nothing behind the last chunk is a message, so nothing further may be dispatched or answered. " +
 		"Non-trivial: cases in which part of message 1's framed body was still on the connection when the handler returned or the expectation was rejected, or bytes followed a multipart closing delimiter")
 	r.Assume("net/http.ReadResponse delimits the responses the server wrote", "scripts are well-formed by construction; withheld-body scripts are judged by what the client actually sent")
 	cases := c02Enumerate(r.Thorough())
@@ -761,6 +803,13 @@ func TestVerif_C02(t *testing.T) {
 			}
 			if c.Kind == c02KindMultipart && c.Follow == c02FoEmbedded {
 				r.Add("cases_multipart_with_epilogue", 1)
+				nt = true
+			}
+			if c02TrailerBad(c.Framing) {
+				r.Add("cases_malformed_trailer", 1)
+				if c.Stream && (c.Prog == c02ProgReadEOF || c.Prog == c02ProgPostBody || c.Prog == c02ProgReadEOFAgain) && len(o.Calls) > 0 {
+					r.Add("cases_malformed_trailer_reached_by_handler_reading_to_EOF", 1)
+				}
 				nt = true
 			}
 			if c.Prog == c02ProgReadEOFAgain && !o.StreamNil && len(o.Calls) > 0 {
